@@ -7,7 +7,10 @@ use crate::report::{guard, par_shards, Ctx, Report, Tier, Violation};
 use crate::rng::Rng;
 use synth_utils::ribbon_controller::{sample_rate_to_capacity, RibbonController};
 
+/// the ten rates every run covers, smallest to largest buffer
 pub const RATES: [u32; 10] = [100, 250, 1000, 3000, 10_000, 22_050, 44_100, 48_000, 96_000, 192_000];
+/// all instantiated sample rates (one const-generic instance each)
+pub const ALL_RATES: [u32; 70] = [100, 125, 200, 250, 300, 400, 500, 600, 700, 750, 800, 900, 1000, 1200, 1500, 2000, 2500, 3000, 3500, 4000, 4500, 5000, 6000, 7000, 8000, 9000, 10000, 11025, 12000, 14000, 15000, 16000, 18000, 20000, 22050, 24000, 25000, 28000, 30000, 32000, 35000, 36000, 40000, 44100, 45000, 48000, 50000, 56000, 60000, 64000, 70000, 72000, 75000, 80000, 88200, 90000, 96000, 100000, 110000, 112000, 120000, 125000, 128000, 140000, 150000, 160000, 176400, 180000, 190000, 192000];
 
 pub trait Rib {
     fn poll(&mut self, x: f32);
@@ -45,7 +48,7 @@ macro_rules! mk {
 }
 
 pub fn make(rate: u32, softpot: f32, dropper: f32, pullup: f32) -> Option<Box<dyn Rib>> {
-    mk!(rate, softpot, dropper, pullup; 100, 250, 1000, 3000, 10000, 22050, 44100, 48000, 96000, 192000)
+    mk!(rate, softpot, dropper, pullup; 100, 125, 200, 250, 300, 400, 500, 600, 700, 750, 800, 900, 1000, 1200, 1500, 2000, 2500, 3000, 3500, 4000, 4500, 5000, 6000, 7000, 8000, 9000, 10000, 11025, 12000, 14000, 15000, 16000, 18000, 20000, 22050, 24000, 25000, 28000, 30000, 32000, 35000, 36000, 40000, 44100, 45000, 48000, 50000, 56000, 60000, 64000, 70000, 72000, 75000, 80000, 88200, 90000, 96000, 100000, 110000, 112000, 120000, 125000, 128000, 140000, 150000, 160000, 176400, 180000, 190000, 192000)
 }
 
 #[derive(Clone, Copy, Debug)]
@@ -652,24 +655,60 @@ pub fn probes(ctx: &Ctx, rates: &[u32]) -> Report {
 pub fn run(ctx: &Ctx, prop: &str) -> Report {
     let mut rep = Report::new();
     let small = ctx.tier == Tier::Small;
-    let rates: Vec<u32> = if small { vec![100, 1000, 3000] } else { RATES.to_vec() };
+    // the ten standard rates plus a seed-dependent selection of the other instantiated rates (all of them in thorough)
+    let rates: Vec<u32> = if small {
+        vec![100, 1000, 3000]
+    } else {
+        let mut v = RATES.to_vec();
+        let mut rr = Rng::derive(ctx.seed, "ribbon.extra_rates", 0);
+        let others: Vec<u32> = ALL_RATES.iter().copied().filter(|x| !RATES.contains(x)).collect();
+        if ctx.tier == Tier::Thorough {
+            v.extend(others);
+        } else {
+            // every odd-looking rate that is cheap (small buffers), and a rotating sample of the expensive ones
+            v.extend(others.iter().copied().filter(|x| *x <= 20_000));
+            for _ in 0..8 {
+                let x = *rr.pick(&others);
+                if !v.contains(&x) {
+                    v.push(x);
+                }
+            }
+        }
+        v.sort();
+        v
+    };
+    let cheap: Vec<u32> = rates.iter().copied().filter(|x| *x <= 25_000).collect();
     let stage = |name: &str, r: Report, rep: &mut Report, t0: std::time::Instant| {
         let ev = r.evaluations;
         rep.merge(r);
         rep.stages.push((name.to_string(), t0.elapsed().as_secs_f64(), ev));
     };
     let t0 = std::time::Instant::now();
-    let n_hist = ctx.budget(6, 1500, 60_000) as usize;
+    // (a) every selected rate gets its own histories, strict and sparse polling, tap trains and mixed presses
+    let per_rate = ctx.budget(2, 6, 40) as usize;
+    let r = par_shards(ctx, rates.len() * per_rate, |job| {
+        let mut rep = Report::new();
+        let rate = rates[rates.len() - 1 - job / per_rate];
+        let k = job % per_rate;
+        let mut r = Rng::derive(ctx.seed, "ribbon.per_rate", rate as u64 * 1000 + k as u64);
+        let strict = k % 2 == 0;
+        let h = if k % 3 == 0 { gen_tap_train(&mut r, &[rate], strict) } else { gen_history(&mut r, &[rate], strict, if small { 4 } else { 8 }) };
+        run_and_record(&h, prop, &mut rep, job < 2);
+        rep
+    });
+    stage("ribbon.histories_per_rate", r, &mut rep, t0);
+    // (b) many more histories on the cheap (small-buffer) rates
+    let t0 = std::time::Instant::now();
+    let n_hist = ctx.budget(4, 1500, 60_000) as usize;
     let shards = if small { 1 } else { 64 };
     let r = par_shards(ctx, shards, |sh| {
         let mut rep = Report::new();
         let mut r = Rng::derive(ctx.seed, "ribbon.histories", sh as u64);
         for j in 0..(n_hist + shards - 1) / shards {
             let strict = j % 2 == 0;
-            // the big buffers are expensive to fill: fewer of them
-            let rs: &[u32] = if small { &rates } else if j % 6 == 0 { &RATES } else { &RATES[..6] };
+            let rs: &[u32] = if small { &rates } else { &cheap };
             let h = if j % 3 == 0 { gen_tap_train(&mut r, rs, strict) } else { gen_history(&mut r, rs, strict, if small { 4 } else { 10 }) };
-            run_and_record(&h, prop, &mut rep, sh == 0 && j < 3);
+            run_and_record(&h, prop, &mut rep, sh == 0 && j < 1);
         }
         rep
     });
@@ -686,7 +725,7 @@ pub fn run(ctx: &Ctx, prop: &str) -> Report {
         rep.floor("ribbon.run_reached_exact_length", 1000);
         rep.floor("ribbon.glitches_1_2_samples", 100);
         for rate in RATES {
-            rep.floor(&format!("ribbon.histories.rate{}", rate), 10);
+            rep.floor(&format!("ribbon.histories.rate{}", rate), 5);
         }
         if prop == "C15" {
             for k in ["just_pressed.true", "just_pressed.false", "just_released.true", "just_released.false"] {
